@@ -1,6 +1,7 @@
 package main
 
 import (
+	"runtime"
 	"regexp"
 	"go/ast"
 	"encoding/json"
@@ -51,6 +52,7 @@ var verifRoot = "/verif"
 var repoRoot = "/repo"
 
 func main() {
+	memoryWatchdog()
 	if v := os.Getenv("VERIF_ROOT"); v != "" {
 		verifRoot = v
 	}
@@ -71,6 +73,23 @@ func main() {
 	}
 	fmt.Fprintln(os.Stderr, "unknown command")
 	os.Exit(2)
+}
+
+// memoryWatchdog aborts the run (UNDECIDED, exit 2) when the translation needs more than the budget: a blow-up of the
+// symbolic state on code far outside what the contracts were written for must not take the machine down.
+func memoryWatchdog() {
+	const budget = 24 << 30
+	go func() {
+		var ms runtime.MemStats
+		for {
+			time.Sleep(2 * time.Second)
+			runtime.ReadMemStats(&ms)
+			if ms.HeapAlloc > budget {
+				fmt.Printf("UNDECIDED: the translation exceeded its memory budget (%d GiB); no verdict\n", budget>>30)
+				os.Exit(2)
+			}
+		}
+	}()
 }
 
 func (w *World) funcIndex() map[string]*ssa.Function {
